@@ -12,6 +12,7 @@ import ast
 import itertools
 from dataclasses import dataclass, field
 import z3
+from .qa import ForAll as QForAll
 from . import ty
 from .ty import T
 from .ty import INT, REAL, BOOL, STR, NONE
@@ -220,11 +221,11 @@ class Engine:
         r = z3.Const("wr", ty.RefSort)
         x = z3.Const("wx", ty.RefSort)
         if key[0] == "fld" and ty.is_reflike(key[3]) and key[3].kind != "fn":
-            self.extra_axioms.append(z3.ForAll([r], z3.Implies(z3.Select(al, r), z3.Or(z3.Select(arr, r) == ty.null, z3.Select(al, z3.Select(arr, r)))),
+            self.extra_axioms.append(QForAll([r], z3.Implies(z3.Select(al, r), z3.Or(z3.Select(arr, r) == ty.null, z3.Select(al, z3.Select(arr, r)))),
                                                patterns=[z3.Select(arr, r)]))
         if key[0] in ("list", "dk") and ty.is_reflike(key[1]):
             so = seq_ops(key[1])
-            self.extra_axioms.append(z3.ForAll([r, x], z3.Implies(z3.And(z3.Select(al, r), so.Mem(z3.Select(arr, r), x)),
+            self.extra_axioms.append(QForAll([r, x], z3.Implies(z3.And(z3.Select(al, r), so.Mem(z3.Select(arr, r), x)),
                                                                   z3.And(x != ty.null, z3.Select(al, x))),
                                                patterns=[so.Mem(z3.Select(arr, r), x)]))
         if key[0] == "dv" and ty.is_reflike(key[2]) and ty.is_reflike(key[1]):
@@ -272,7 +273,7 @@ class Engine:
                 r = z3.Const("wr", ty.RefSort)
                 self.owned_tags = getattr(self, "owned_tags", {})
                 self.owned_tags[k] = len(self.owned_tags) + 1
-                self.extra_axioms.append(z3.ForAll([r], z3.And(inv(f(r)) == r, tag(f(r)) == self.owned_tags[k]), patterns=[f(r)]))
+                self.extra_axioms.append(QForAll([r], z3.And(inv(f(r)) == r, tag(f(r)) == self.owned_tags[k]), patterns=[f(r)]))
                 self.assumptions.add("ownership by construction: container-valued fields marked `owned` hold a container created by the owner's constructor (scan-checked), so distinct owners/fields never share one")
             if t.kind in ("list", "dict", "set"):
                 # container-valued immutable fields are never None and are allocated with their owner
@@ -280,13 +281,13 @@ class Engine:
                     self.heap0[("alloc",)] = z3.Const("H0_alloc", self.key_sort(("alloc",)))
                 al = self.heap0[("alloc",)]
                 r = z3.Const("wr", ty.RefSort)
-                self.extra_axioms.append(z3.ForAll([r], z3.Implies(z3.Select(al, r), z3.And(f(r) != ty.null, z3.Select(al, f(r)))), patterns=[f(r)]))
+                self.extra_axioms.append(QForAll([r], z3.Implies(z3.Select(al, r), z3.And(f(r) != ty.null, z3.Select(al, f(r)))), patterns=[f(r)]))
             elif t.kind == "ref":
                 if ("alloc",) not in self.heap0:
                     self.heap0[("alloc",)] = z3.Const("H0_alloc", self.key_sort(("alloc",)))
                 al = self.heap0[("alloc",)]
                 r = z3.Const("wr", ty.RefSort)
-                self.extra_axioms.append(z3.ForAll([r], z3.Implies(z3.Select(al, r), z3.Or(f(r) == ty.null, z3.Select(al, f(r)))), patterns=[f(r)]))
+                self.extra_axioms.append(QForAll([r], z3.Implies(z3.Select(al, r), z3.Or(f(r) == ty.null, z3.Select(al, f(r)))), patterns=[f(r)]))
         return self.imm[k]
 
     def set_field(self, st: State, obj: V, name: str, val: V, init: bool = False):
@@ -351,10 +352,21 @@ class Engine:
         if not getattr(self, "_birth_axiom", False):
             self._birth_axiom = True
             x = z3.Const("bx", ty.RefSort)
-            self.extra_axioms.append(z3.ForAll([x], z3.Implies(z3.Select(al0, x), birth(x) == 0), patterns=[z3.Select(al0, x)]))
+            self.extra_axioms.append(QForAll([x], z3.Implies(z3.Select(al0, x), birth(x) == 0), patterns=[z3.Select(al0, x)]))
             self.extra_axioms.append(birth(ty.null) == 0)
         self.hset(st, ("alloc",), z3.Store(self.alloc(st), r, True))
         return V(t, r)
+
+    def alloc_from_initial(self, st: State):
+        """allocation only grows: whatever the initial heap holds is still allocated (stated against the initial
+        allocation map so that the fact survives path-condition pruning)"""
+        if ("alloc",) not in self.heap0:
+            self.heap0[("alloc",)] = z3.Const("H0_alloc", self.key_sort(("alloc",)))
+        al0, cur = self.heap0[("alloc",)], self.alloc(st)
+        if cur is al0:
+            return
+        r = fresh("r", ty.RefSort)
+        st.assume(QForAll([r], z3.Implies(z3.Select(al0, r), z3.Select(cur, r)), patterns=[z3.Select(cur, r)]))
 
     def assume_imm_wf(self, st: State):
         alc = self.alloc(st)
@@ -362,7 +374,7 @@ class Engine:
         for (owner, fname), f in list(self.imm.items()):
             if f.range() == ty.RefSort and self.spec.classes.get(owner, {}).get("fields", {}).get(fname, (None,))[0] is not None \
                     and self.spec.classes[owner]["fields"][fname][0].kind != "fn":
-                st.assume(z3.ForAll([wr], z3.Implies(z3.Select(alc, wr), z3.Or(f(wr) == ty.null, z3.Select(alc, f(wr)))), patterns=[f(wr)]))
+                st.assume(QForAll([wr], z3.Implies(z3.Select(alc, wr), z3.Or(f(wr) == ty.null, z3.Select(alc, f(wr)))), patterns=[f(wr)]))
 
     def new_list(self, st, elem_t: T, seq=None) -> V:
         lv = self.new_ref(st, ty.List(elem_t), "list")
@@ -714,7 +726,7 @@ class Engine:
             xs = [z3.Const(f"x{i}", s) for i, s in enumerate(sorts)]
             for i, s in enumerate(sorts):
                 inv = z3.Function(f"{fname}_inv{i}", ty.StrSort, s)
-                invs.append(z3.ForAll(xs, inv(f(*xs)) == xs[i], patterns=[f(*xs)]))
+                invs.append(QForAll(xs, inv(f(*xs)) == xs[i], patterns=[f(*xs)]))
             self.extra_axioms.extend(invs)
             self.assumptions.add("A-STR: an f-string with holes is an injective function of its hole values (per template)")
         return self.fmt_templates[fname]
@@ -1222,10 +1234,10 @@ class Engine:
         guard = z3.And(dom, *conds) if conds else dom
         if sub.comp_defs:
             for exc, present, where in sub.comp_defs:
-                self.oblige(fr, st, "def", f"{exc}@comprehension", z3.ForAll([var], z3.Implies(dom, present)),
+                self.oblige(fr, st, "def", f"{exc}@comprehension", QForAll([var], z3.Implies(dom, present)),
                             info=f"definedness inside comprehension at {where}")
         if universal:
-            return z3.ForAll([var], z3.Implies(guard, body))
+            return QForAll([var], z3.Implies(guard, body))
         return z3.Exists([var], z3.And(guard, body))
 
     def ev_GeneratorExp(self, node, st, fr):
@@ -1251,7 +1263,7 @@ class Engine:
             R = fresh("comp", so.S)
             st.assume(so.Len(R) == z3.If(hi > lo, hi - lo, 0))
             j = fresh("cj", z3.IntSort())
-            st.assume(z3.ForAll([j], z3.Implies(z3.And(0 <= j, j < so.Len(R)), so.At(R, j) == z3.substitute(elt.z, (i, lo + j))),
+            st.assume(QForAll([j], z3.Implies(z3.And(0 <= j, j < so.Len(R)), so.At(R, j) == z3.substitute(elt.z, (i, lo + j))),
                                 patterns=[so.At(R, j)]))
             return V(ty.SeqV(elt.t), R) if fr.spec else self.new_list(st, elt.t, R)
         seq, et = payload
@@ -1267,13 +1279,13 @@ class Engine:
             R = fresh("filt", so.S)
             y = fresh("fy", ty.zsort(et))
             Py = z3.substitute(P, (x, y))
-            st.assume(z3.ForAll([y], so.Mem(R, y) == z3.And(so.Mem(seq, y), Py), patterns=[so.Mem(R, y)]))
-            st.assume(z3.ForAll([y], z3.Implies(z3.And(so.Mem(seq, y), Py), so.Mem(R, y)), patterns=[so.Mem(seq, y)]))
+            st.assume(QForAll([y], so.Mem(R, y) == z3.And(so.Mem(seq, y), Py), patterns=[so.Mem(R, y)]))
+            st.assume(QForAll([y], z3.Implies(z3.And(so.Mem(seq, y), Py), so.Mem(R, y)), patterns=[so.Mem(seq, y)]))
             st.assume(so.Len(R) <= so.Len(seq))
             st.assume(z3.Implies(so.NoDup(seq), so.NoDup(R)))
             # order is preserved (first occurrences)
             y2 = fresh("fy2", ty.zsort(et))
-            st.assume(z3.ForAll([y, y2], z3.Implies(z3.And(so.Mem(R, y), so.Mem(R, y2), so.NoDup(seq)),
+            st.assume(QForAll([y, y2], z3.Implies(z3.And(so.Mem(R, y), so.Mem(R, y2), so.NoDup(seq)),
                                                     (so.Idx(R, y) < so.Idx(R, y2)) == (so.Idx(seq, y) < so.Idx(seq, y2))),
                                 patterns=[z3.MultiPattern(so.Idx(R, y), so.Idx(R, y2))]))
             # counting form: |R| = number of positions satisfying P  (used for routing/partition arguments)
@@ -1292,16 +1304,16 @@ class Engine:
         if not conds:
             st.assume(so2.Len(R) == so.Len(seq))
             j = fresh("mj", z3.IntSort())
-            st.assume(z3.ForAll([j], z3.Implies(z3.And(0 <= j, j < so.Len(seq)),
+            st.assume(QForAll([j], z3.Implies(z3.And(0 <= j, j < so.Len(seq)),
                                                 so2.At(R, j) == z3.substitute(elt.z, (x, so.At(seq, j)))), patterns=[so2.At(R, j)]))
         else:
             st.assume(so2.Len(R) <= so.Len(seq))
             y = fresh("my", so2.E)
             wit = self.ufn(f"mapwit!{next(_fresh)}", so2.E, so.E)
-            st.assume(z3.ForAll([y], z3.Implies(so2.Mem(R, y), z3.And(so.Mem(seq, wit(y)), z3.substitute(P, (x, wit(y))),
+            st.assume(QForAll([y], z3.Implies(so2.Mem(R, y), z3.And(so.Mem(seq, wit(y)), z3.substitute(P, (x, wit(y))),
                                                                      y == z3.substitute(elt.z, (x, wit(y))))), patterns=[so2.Mem(R, y)]))
             xx = fresh("mx", so.E)
-            st.assume(z3.ForAll([xx], z3.Implies(z3.And(so.Mem(seq, xx), z3.substitute(P, (x, xx))),
+            st.assume(QForAll([xx], z3.Implies(z3.And(so.Mem(seq, xx), z3.substitute(P, (x, xx))),
                                                  so2.Mem(R, z3.substitute(elt.z, (x, xx)))), patterns=[so.Mem(seq, xx)]))
         return V(ty.SeqV(elt.t), R) if fr.spec else self.new_list(st, elt.t, R)
 
@@ -1354,8 +1366,8 @@ class Engine:
         y = fresh("dy", ty.zsort(kt))
         st.assume(sk.NoDup(keys))
         st.assume(sk.Len(keys) <= so.Len(seq))
-        st.assume(z3.ForAll([x], z3.Implies(so.Mem(seq, x), sk.Mem(keys, kx.z)), patterns=[so.Mem(seq, x)]))
-        st.assume(z3.ForAll([y], z3.Implies(sk.Mem(keys, y), z3.And(so.Mem(seq, wit(y)), z3.substitute(kx.z, (x, wit(y))) == y,
+        st.assume(QForAll([x], z3.Implies(so.Mem(seq, x), sk.Mem(keys, kx.z)), patterns=[so.Mem(seq, x)]))
+        st.assume(QForAll([y], z3.Implies(sk.Mem(keys, y), z3.And(so.Mem(seq, wit(y)), z3.substitute(kx.z, (x, wit(y))) == y,
                                                                   z3.Select(vals, y) == z3.substitute(vx.z, (x, wit(y))))), patterns=[sk.Mem(keys, y)]))
         self.set_dict(st, dv, keys, vals)
         return dv
@@ -1376,8 +1388,8 @@ class Engine:
         arr = fresh("setv", z3.ArraySort(ty.zsort(fx.t), z3.BoolSort()))
         wit = self.ufn(f"scwit!{next(_fresh)}", ty.zsort(fx.t), ty.zsort(et))
         y = fresh("sy", ty.zsort(fx.t))
-        st.assume(z3.ForAll([x], z3.Implies(so.Mem(seq, x), z3.Select(arr, fx.z)), patterns=[so.Mem(seq, x)]))
-        st.assume(z3.ForAll([y], z3.Implies(z3.Select(arr, y), z3.And(so.Mem(seq, wit(y)), z3.substitute(fx.z, (x, wit(y))) == y)),
+        st.assume(QForAll([x], z3.Implies(so.Mem(seq, x), z3.Select(arr, fx.z)), patterns=[so.Mem(seq, x)]))
+        st.assume(QForAll([y], z3.Implies(z3.Select(arr, y), z3.And(so.Mem(seq, wit(y)), z3.substitute(fx.z, (x, wit(y))) == y)),
                             patterns=[z3.Select(arr, y)]))
         key = ("set", fx.t)
         self.hset(st, key, z3.Store(self.h(st, key), sv.z, arr), sv.z)
@@ -1513,7 +1525,7 @@ class Engine:
             if base.t.kind != "ref":
                 raise CheckerError(f"{fr.qname}: attribute store on {base.t}")
             self.raise_edge(fr, st, base.z == ty.null, "AttributeError", f"L{target.lineno}")
-            init = fr.qname.endswith(".__init__") and isinstance(target.value, ast.Name) and target.value.id == "self"
+            init = fr.qname.split("#")[0].endswith(".__init__") and isinstance(target.value, ast.Name) and target.value.id == "self"
             owner, t, imm = self.fld_key(base.t.args[0], target.attr)
             if isinstance(val.t, T) and val.t.kind in ("list", "dict") and t.kind == val.t.kind and val.t != t:
                 val = V(t, val.z)
@@ -1563,7 +1575,7 @@ class Engine:
             new = fresh("upd", so.S)
             j = fresh("uj", z3.IntSort())
             st.assume(so.Len(new) == n)
-            st.assume(z3.ForAll([j], z3.Implies(z3.And(0 <= j, j < n), so.At(new, j) == z3.If(j == iz, self.coerce(val, et).z, so.At(seq, j))),
+            st.assume(QForAll([j], z3.Implies(z3.And(0 <= j, j < n), so.At(new, j) == z3.If(j == iz, self.coerce(val, et).z, so.At(seq, j))),
                                 patterns=[so.At(new, j)]))
             self.set_list_seq(st, base, new)
             return
@@ -1854,7 +1866,7 @@ def split_goal(goal, depth=0):
             out = []
             for c in body.children():
                 inst = z3.substitute_vars(c if guard is None else z3.Implies(guard, c), *reversed(consts))
-                for piece in split_goal(z3.ForAll(consts, inst), depth + 1):
+                for piece in split_goal(QForAll(consts, inst), depth + 1):
                     out.append(piece)
             return out
     return [goal]
@@ -1862,4 +1874,5 @@ def split_goal(goal, depth=0):
 
 def short(qname: str) -> str:
     mod, _, name = qname.partition(":")
+    mod = mod.split("#")[0]
     return mod.split(".")[-1] + ":" + name
